@@ -169,7 +169,7 @@ func WorkerMain(t *testing.T) {
 				continue
 			}
 
-			if time.Since(lastT) > time.Duration(envInt("VERIF_WATCHDOG_S", 60))*time.Second {
+			if time.Since(lastT) > time.Duration(envInt("VERIF_WATCHDOG_S", 300))*time.Second {
 				buf := make([]byte, 1<<20)
 				n := runtime.Stack(buf, true)
 				fmt.Fprintf(os.Stderr, "WATCHDOG: no progress; goroutines:\n%s\n", buf[:n])
@@ -415,9 +415,11 @@ func shrink(t *testing.T, h *Harness, rs, idx uint64, tier string, words []uint3
 
 	best = trim(best)
 
+	exhausted := func() bool { return runs >= maxRuns || time.Now().After(deadline) }
+
 	// 2. zero out blocks, then delete blocks
-	for size := (len(best) + 1) / 2; size >= 1; size /= 2 {
-		for at := 0; at < len(best); at += size {
+	for size := (len(best) + 1) / 2; size >= 1 && !exhausted(); size /= 2 {
+		for at := 0; at < len(best) && !exhausted(); at += size {
 			end := at + size
 			if end > len(best) {
 				end = len(best)
